@@ -341,3 +341,26 @@ MANIFEST_TEXT["C07"] = {
     "text": "The solver shows, for every draw, that the external-sampling frontier lies on the sampled path, that an opponent infoset is sampled once and the cached sample is reused by the later traversal, that both passes' frontier computations (and the generic one used by the chance-sampled solver) leave nothing in the reused workspace, and that the chance/opponent caches draw once per pass. Schedules themselves are outside; the unique-visit argument is checked on the sequential code only.",
     "note": "Bounded to depth-2 trees and task targets 2..3. The parallel section of single_player_iter / solve_external_multi (rayon, try_lock) is outside; workspace counterexamples are confirmed natively (deterministic Sampled-on-chance-free-trees comparison, multi-thread panic detection).",
 }
+
+# ---------------------------------------------------------------------------------------------
+K_STEPS = [
+    H("c08_step_recurse_player", f"{VAN}::steps", "quick", functions=["vanilla::recurse_player (decision-node kernel of recurse_single and recurse_multi)"], pbfile="vsteps",
+      bounds="either player; payoffs {-2,1,3}^2; strategy (1/4,3/4) or (1/2,1/2); chance/own/opponent reach in {1/4,1/2,1}^3 (all products exact); recursion replaced by the harness closure; unwind 3",
+      role="value = sum sigma*u; regret += chance-reach x opponent-reach x (u_a - value), negated for player two; children entered with only the acting player's reach scaled"),
+    H("c08_step_update_cum_strat", f"{VAN}::steps", "quick", functions=["<RegretInfoset as PlayerRecurse>::update_cum_strat", "<MutexRegretInfoset as MutexPlayerRecurse>::update_cum_strat"], pbfile="vsteps",
+      bounds="own reach in {1/4,1/2,1}; strategy (1/4,3/4) or (1/2,1/2)", role="average strategy += own reach x current strategy (plain and mutex infoset)"),
+    H("c10_full_chance_enumerates_all", f"{VAN}::steps", "quick", functions=["<FullChance as ChanceRecurse>::next_nodes"], pbfile="vsteps",
+      bounds="3 outcomes", role="the unsampled method visits every chance outcome with its declared probability (no draw)"),
+]
+K_XSTEPS = [
+    H("c08_external_step_active", f"{EXT}::steps", "quick", functions=["<CachedInfoset as ActiveInfo>::recurse"],
+      bounds="payoffs {-2,1,3}^2; strategy (1/4,3/4) or (1/2,1/2); recursion replaced by the harness closure", role="every action explored; regret += u_a - value without reach; own average untouched"),
+    H("c08_external_step_opponent", f"{EXT}::steps", "quick", functions=["<CachedInfoset as ExternalInfo>::next_update", "CachedInfoset::sample"],
+      stubs=["H-draw hook (logged symbolic draw)"], playback=True, bounds="2 actions; every draw", role="average += current strategy; traversal follows the single drawn action"),
+    H("c08_external_terminal_sign", f"{EXT}::steps", "quick", functions=["external::recurse_regret::<true/false> (terminal arm)"],
+      bounds="payoffs {-2,1,3}", role="first pass sees +u, second pass -u"),
+]
+REGISTRY["C08"]["harnesses"] += K_STEPS[:2] + K_XSTEPS
+REGISTRY["C02"]["harnesses"] += K_STEPS[:2]
+REGISTRY["C10"]["harnesses"] += [K_STEPS[2], K_XSTEPS[1]]
+REGISTRY["C06"]["harnesses"] += [K_STEPS[1]]
